@@ -7,15 +7,33 @@ pub fn read_message<R: Read>(r: &mut R) -> Result<Message, RepeError> {
     let mut hdr_buf = [0u8; HEADER_SIZE];
     read_exact(r, &mut hdr_buf)?;
     let header = Header::decode(&hdr_buf)?;
-    let mut query = vec![0u8; header.query_length as usize];
+    let mut query = Vec::new();
+    grow_declared(&mut query, header.query_length as usize)?;
     if !query.is_empty() {
         read_exact(r, &mut query)?;
     }
-    let mut body = vec![0u8; header.body_length as usize];
+    let mut body = Vec::new();
+    grow_declared(&mut body, header.body_length as usize)?;
     if !body.is_empty() {
         read_exact(r, &mut body)?;
     }
     Message::new(header, query, body)
+}
+
+/// Grow `buf` with zeros to a length declared by the peer's header.
+///
+/// The length is attacker-controlled, so the reservation is fallible: a frame
+/// declaring more than can be allocated is reported as an
+/// [`OutOfMemory`](std::io::ErrorKind::OutOfMemory) I/O error instead of
+/// aborting the process inside an infallible allocation.
+pub(crate) fn grow_declared(buf: &mut Vec<u8>, len: usize) -> Result<(), RepeError> {
+    if buf.try_reserve_exact(len.saturating_sub(buf.len())).is_err() {
+        return Err(RepeError::Io(std::io::Error::from(
+            std::io::ErrorKind::OutOfMemory,
+        )));
+    }
+    buf.resize(len, 0);
+    Ok(())
 }
 
 /// Read a full REPE message frame into `buf`, reusing its allocation across
@@ -35,7 +53,7 @@ pub fn read_message_into<R: Read>(r: &mut R, buf: &mut Vec<u8>) -> Result<(), Re
     read_exact(r, &mut buf[..HEADER_SIZE])?;
     let header = Header::decode(&buf[..HEADER_SIZE])?;
     let total = HEADER_SIZE + header.query_length as usize + header.body_length as usize;
-    buf.resize(total, 0);
+    grow_declared(buf, total)?;
     read_exact(r, &mut buf[HEADER_SIZE..total])?;
     Ok(())
 }
